@@ -75,6 +75,10 @@ func (s Shape) String() string {
 
 var ErrInvalidType = errors.New("invalid type")
 
+// ErrInvalidRawDataLength is returned when the raw data of a tensor does not consist
+// of a whole number of elements.
+var ErrInvalidRawDataLength = errors.New("raw data length is not a multiple of the element size")
+
 // Dim is a dimension.
 type Dim struct {
 	IsDynamic bool
@@ -338,6 +342,12 @@ func ReadFloat32ArrayFromBytes(data []byte) ([]float32, error) {
 	}
 
 	if err != io.EOF {
+		if err == nil {
+			// The reader returned fewer bytes than one element needs: the raw data
+			// does not consist of a whole number of elements.
+			err = ErrInvalidRawDataLength
+		}
+
 		return nil, err
 	}
 
@@ -367,6 +377,12 @@ func ReadFloat64ArrayFromBytes(data []byte) ([]float64, error) {
 	}
 
 	if err != io.EOF {
+		if err == nil {
+			// The reader returned fewer bytes than one element needs: the raw data
+			// does not consist of a whole number of elements.
+			err = ErrInvalidRawDataLength
+		}
+
 		return nil, err
 	}
 
@@ -407,6 +423,12 @@ func ReadUint8ArrayFromBytes(data []byte) ([]uint8, error) {
 	}
 
 	if err != io.EOF {
+		if err == nil {
+			// The reader returned fewer bytes than one element needs: the raw data
+			// does not consist of a whole number of elements.
+			err = ErrInvalidRawDataLength
+		}
+
 		return nil, err
 	}
 
@@ -435,6 +457,12 @@ func ReadInt8ArrayFromBytes(data []byte) ([]int8, error) {
 	}
 
 	if err != io.EOF {
+		if err == nil {
+			// The reader returned fewer bytes than one element needs: the raw data
+			// does not consist of a whole number of elements.
+			err = ErrInvalidRawDataLength
+		}
+
 		return nil, err
 	}
 
@@ -463,6 +491,12 @@ func ReadUint16ArrayFromBytes(data []byte) ([]uint16, error) {
 	}
 
 	if err != io.EOF {
+		if err == nil {
+			// The reader returned fewer bytes than one element needs: the raw data
+			// does not consist of a whole number of elements.
+			err = ErrInvalidRawDataLength
+		}
+
 		return nil, err
 	}
 
@@ -491,6 +525,12 @@ func ReadInt16ArrayFromBytes(data []byte) ([]int16, error) {
 	}
 
 	if err != io.EOF {
+		if err == nil {
+			// The reader returned fewer bytes than one element needs: the raw data
+			// does not consist of a whole number of elements.
+			err = ErrInvalidRawDataLength
+		}
+
 		return nil, err
 	}
 
@@ -519,6 +559,12 @@ func ReadUint32ArrayFromBytes(data []byte) ([]uint32, error) {
 	}
 
 	if err != io.EOF {
+		if err == nil {
+			// The reader returned fewer bytes than one element needs: the raw data
+			// does not consist of a whole number of elements.
+			err = ErrInvalidRawDataLength
+		}
+
 		return nil, err
 	}
 
@@ -547,6 +593,12 @@ func ReadInt32ArrayFromBytes(data []byte) ([]int32, error) {
 	}
 
 	if err != io.EOF {
+		if err == nil {
+			// The reader returned fewer bytes than one element needs: the raw data
+			// does not consist of a whole number of elements.
+			err = ErrInvalidRawDataLength
+		}
+
 		return nil, err
 	}
 
@@ -575,6 +627,12 @@ func ReadUint64ArrayFromBytes(data []byte) ([]uint64, error) {
 	}
 
 	if err != io.EOF {
+		if err == nil {
+			// The reader returned fewer bytes than one element needs: the raw data
+			// does not consist of a whole number of elements.
+			err = ErrInvalidRawDataLength
+		}
+
 		return nil, err
 	}
 
@@ -603,6 +661,12 @@ func ReadInt64ArrayFromBytes(data []byte) ([]int64, error) {
 	}
 
 	if err != io.EOF {
+		if err == nil {
+			// The reader returned fewer bytes than one element needs: the raw data
+			// does not consist of a whole number of elements.
+			err = ErrInvalidRawDataLength
+		}
+
 		return nil, err
 	}
 
